@@ -28,8 +28,11 @@ RULE = ('Hypothesis cases {method, default_ctx, children[1-3] of {exit path in '
         'default action terminates (SIG_DFL first, cores off) | external '
         'SIGKILL / terminate(); exit delay; try-start-a-foreign-process flag}, '
         'script[0-14] of join(k, 0|0.05|0.5|None) / exitcode / is_alive / '
-        'active_children / sleep / start-again / release}; unreleased children '
-        'are released and joined at the end.  part fork runs every case with '
+        'active_children / sleep / start-again / release / await-end (wait by '
+        '/proc until the child is gone, so the next poll is after the exit '
+        'and before any join) / spin (poll back-to-back across the exit)}; '
+        'at the end every child is released, polled after its end (finale) '
+        'and joined.  part fork runs every case with '
         'fork; spawn and forkserver run a few (quick) or as many (thorough). '
         'A case is non-trivial when some child leaves by a non-return path or '
         'a timed join expired with the child still running.  Distinct = '
@@ -95,6 +98,8 @@ _STEP = st.one_of(
     st.tuples(st.just('start2'), _IDX),
     st.tuples(st.just('release'), _IDX),
     st.tuples(st.just('release'), _IDX),
+    st.tuples(st.just('await'), _IDX),
+    st.tuples(st.just('spin'), _IDX),
 ).map(list)
 
 
@@ -104,6 +109,7 @@ def cases(method):
         'default_ctx': st.booleans(),
         'children': st.lists(_CHILD, min_size=1, max_size=3),
         'script': st.lists(_STEP, min_size=0, max_size=14),
+        'finale': st.sampled_from(['join', 'join', 'poll', 'alive']),
     })
 
 
@@ -490,6 +496,30 @@ def _run(case, method, Proc, active, Pipe, kids, conns, timers, labels, flags):
         else:
             observe(i, 'poll')
 
+    def await_end(i):
+        """release child i and wait (by /proc alone) until it has ended, so
+        that the next poll lands after the exit but before any join"""
+        kid = kids[i]
+        release(i)
+        deadline = time.monotonic() + HANG_KILL
+        while kid.gt() != 'ended':
+            if time.monotonic() > deadline:
+                raise _Fail(inconclusive('child %d still running %gs after '
+                                         'its release' % (i, HANG_KILL)))
+            time.sleep(0.001)
+        labels.add('await_end' + (':unjoined' if not kid.joined else ''))
+
+    def spin(i):
+        """release child i and poll it back-to-back across its exit"""
+        kid = kids[i]
+        release(i)
+        deadline = time.monotonic() + 3.0
+        k = 0
+        while kid.code_seen is None and time.monotonic() < deadline:
+            observe(i, 'alive' if k % 4 == 3 else 'poll')
+            k += 1
+        labels.add('spin')
+
     def start_again(i):
         kid = kids[i]
         before = set(_my_children())
@@ -528,11 +558,19 @@ def _run(case, method, Proc, active, Pipe, kids, conns, timers, labels, flags):
             start_again(step[1] % n)
         elif op == 'release':
             release(step[1] % n)
+        elif op == 'await':
+            await_end(step[1] % n)
+        elif op == 'spin':
+            spin(step[1] % n)
         else:
             raise HarnessError('unknown step %r' % (step,))
 
     # ---- wind down: everybody is released, joined, and checked -------------
+    finale = case.get('finale', 'join')
     for i in range(n):
+        if finale != 'join' and not kids[i].joined:
+            await_end(i)
+            observe(i, finale)
         join(i, None)
     for i, kid in enumerate(kids):
         observe(i, 'poll')
@@ -567,8 +605,12 @@ PARTS = {'fork': _for('fork'), 'spawn': _for('spawn'),
 
 
 def run(ctx):
-    for method, n in (('fork', ctx.pick(25, 1500)),
-                      ('spawn', ctx.pick(2, 450)),
-                      ('forkserver', ctx.pick(2, 450))):
+    # (cases per shard, wall cap per shard in s).  The caps only bite when the
+    # box is badly oversubscribed (a fork case costs ~0.2 s on a quiet box and
+    # >2 s at load 80); a cut part is reported as budget_cut in the evidence.
+    plan = (('fork', ctx.pick(25, 600), ctx.pick(22, 420)),
+            ('spawn', ctx.pick(2, 200), ctx.pick(6, 240)),
+            ('forkserver', ctx.pick(2, 200), ctx.pick(6, 240)))
+    for method, n, cap in plan:
         ctx.explore(method, cases(method), PARTS[method], n=n,
-                    shrink_budget=25, reexecute_confirm=2)
+                    shrink_budget=25, reexecute_confirm=2, time_cap=cap)
